@@ -4,6 +4,7 @@ import Jap.Lemmas.PStateFacts
 import Jap.Gen.PState
 import Jap.Lemmas.PStateCtx
 import Jap.Lemmas.PStateCtxOps
+import Jap.Lemmas.PStateBridge
 /-!
 C09 — a parser's answers do not depend on what it was asked before.
 
@@ -237,7 +238,7 @@ theorem tie_restored_locs :
     restoredLocs = ["allow_default_instance", "apply_config_skip", "class_instantiators", "current_path_dir", "defaults_cache",
       "lenient_check", "load_value_mode", "nested_links", "parent_parser", "parent_parsers", "parser_capture", "previous_config",
       "print_config_skip", "shtab_preambles", "shtab_prog", "shtab_shell", "single_subcommand", "sub_defaults",
-      "os.cwd", "argparse.Namespace", "parser.print_config", "sub.print_config"] := by decide
+      "os.cwd", "argparse.Namespace", "parser.print_config", "sub.print_config", "action.default"] := by decide
 
 /-- the context managers used by the skeletons of the public operations are, in the regenerated Gen/Brackets, brackets
     whose reset sits in a `finally` and restores the variable's own earlier value; the three unreset ones have no reset -/
@@ -308,15 +309,24 @@ theorem ctx_stale_read_depends_on_history :
     okOp restoredLocs stale = false ∧
     answer stale (runHist [parseArgs 1 1 7 [] none] Ctx.init) ≠ answer stale Ctx.init := by decide +kernel
 
-/-- `action.default` is rewritten by the help formatter and put back by straight-line code, not in a `finally`
-    (jsonargparse/_formatters.py, `_expand_help`): correct as long as nothing between the two statements raises —
-    with an exception there the rewritten default stays.  This is why `action.default` is not among the restored
-    locations of the theorems above (no input that makes the real statements in between raise is known). -/
+/-- regression (finding F32h, repaired by cb986b8): before the repair `_expand_help` put `action.default` back with a plain
+    statement after the help string was built — the OLD skeleton is a bracket whose reset is skipped by an exception; with
+    `extra_help()` raising in between (a live subclass without an import path) the default-config value stayed in the action.
+    The present skeleton takes the place of the reset from the regenerated fact `helpDefaultFinally`, and `format_help` under
+    faults is covered by `C09_ctx_public_ops`. -/
 theorem ctx_help_default_not_fault_tolerant :
     let faulted : Prog := .bracket false "action.default" 7 (.seq (.read "action.default") .raise)
     Faulted (.bracket false "action.default" 7 (.read "action.default")) faulted ∧
-    (run faulted Ctx.init).env "action.default" = 7 := by
-  exact ⟨.bracket (.after (.refl _)), by decide⟩
+    (run faulted Ctx.init).env "action.default" = 7 ∧ okOp restoredLocs faulted = false := by
+  exact ⟨.bracket (.after (.refl _)), by decide, by decide⟩
+
+/-- tie: the restore of `action.default` sits in a `finally` in the source as it is now -/
+theorem tie_help_default_finally : Jap.Gen.PState.helpDefaultFinally = true := by decide
+
+/-- with the repair the same fault leaves the default as it was -/
+theorem ctx_help_default_repaired :
+    (run (.bracket Jap.Gen.PState.helpDefaultFinally "action.default" 7 (.seq (.read "action.default") .raise)) Ctx.init).env "action.default" = 0 := by
+  decide
 
 /-- non-vacuity: the unreset locations really change (so "nothing changes" is not what is proved), reads do flow into
     the answer, a failing parse raises, and a faulted operation is a different program -/
@@ -338,5 +348,48 @@ theorem ctx_pending_request_cleared :
   decide +kernel
 
 end Ctx
+
+/-! ## the two engines speak about the same thing
+
+`Jap.PState.Bridge` (Lemmas/PStateBridge.lean): every carrier of the transcription (`World`) is a location of the bracket
+engine (or object state no skeleton touches); `locs p w` is the state of the bracket engine a world stands for; `argvOf`
+turns the argv of a skeleton into the argv of the transcription. -/
+section Bridge
+open Jap.PState.Bridge
+
+/-- carriers ↔ locations: a carrier is pinned by the invariant of the transcription (`Inv`) exactly when its location is among
+    the restored locations of the bracket engine (computed from the regenerated tables); the carriers `Inv` leaves free are the
+    locations the skeletons write before they read them -/
+theorem bridge_carrier_classes :
+    (Carrier.all.all fun c => match c.loc with
+      | some x => c.constrained == Ctx.restoredLocs.contains x
+      | none => c.constrained || c == .shtabAdded) = true := by decide
+
+/-- a world satisfying the invariant of the transcription stands for a state satisfying the invariant of the bracket engine on
+    the locations of the constrained carriers; so it does after every history of transcribed operations -/
+theorem bridge_invariant (D : Nat → PDesc) (p : Nat) (hist : List (Nat × Op)) :
+    Ctx.Inv ["lenient_check", "parent_parser", "parser.print_config"] (locs p (runHist genFacts D hist (init D))) :=
+  inv_bridge D p _ (C09_invariant_after_history D hist)
+
+/-- per operation: for parse_args over every argv of up to two elements of every kind (no sub-command / an empty one / one with a
+    typed option; 171 shapes) the transcription (`step`) and the skeleton (`Ctx.run`) agree on whether the call returns and on
+    WHICH carriers it leaves changed (parse_kwargs, subclass_arg_parser, dump_kwargs, lenient_check, parent_parser, the pending
+    request, `args` of the parser and of the sub-command parser) -/
+theorem bridge_parse_args_agree : (family.all agreeOn) = true := by decide +kernel
+
+/-- … and for parse_object, validate, instantiate_classes, get_defaults, format_help, dump with and without skip_default -/
+theorem bridge_other_ops_agree : agreeOther = true := by decide +kernel
+
+/-- non-vacuity: the family is not empty, both outcomes occur, and footprints differ between operations -/
+theorem bridge_nonvacuous :
+    family.length = 171 ∧
+    (Ctx.run (Ctx.parseArgs 4 1 7 [.typed] none) Ctx.init).raised = false ∧
+    (Ctx.run (Ctx.parseArgs 4 1 7 [.printConfig 5, .cfgFile] (some [])) Ctx.init).raised = true ∧
+    footprint (Ctx.run (Ctx.parseArgs 4 1 7 [.typed] (some [.typed])) Ctx.init).env
+      = [true, true, false, false, false, false, true, true] ∧
+    footprint (locs 1 (step genFacts desc (init desc) (1, .parseArgs (argvOf [.printConfig 5] none))).1)
+      = [true, true, true, false, false, false, true, false] := by decide +kernel
+
+end Bridge
 
 end Jap.Props.C09
